@@ -134,6 +134,18 @@ def oracle_tcpstream(case, impl):
     return None
 
 
+def oracle_localaddr(case, impl):
+    """C01 with several local addresses on one wildcard UDP listener: every client, writing from a connected socket to the
+    local address it chose, gets its reply (from that address) while the others are in flight."""
+    if impl.startswith("seq="):
+        return None
+    if impl.startswith("err") and "TIMEOUT" in impl:
+        n = impl.split(":")[0].split(" ")[-1]
+        return ("UDP client %s of %d, all in flight together on different local addresses of one wildcard listener, got no reply on its "
+                "connected socket (%s): the reply did not come back from the address the query was sent to" % (n, len(case.split(" ")[1].split(",")), impl[:40]))
+    return "localaddr: " + impl[:80]
+
+
 SPEC = dict(
     lean_module="NV.Props.C01",
     areas=[dict(name="sock", n_quick=3000, n_thorough=40000, shards_thorough=8, oracle=oracle_c01,
@@ -142,6 +154,8 @@ SPEC = dict(
                 nontrivial=lambda c, i: len(i) > 8),
            dict(name="e2e", n_quick=1500, n_thorough=24000, shards_thorough=8, oracle=oracle_e2e, timeout=900,
                 nontrivial=lambda c, i: len(i) > 8),
+           # one wildcard UDP listener, clients on several local addresses in flight together
+           dict(name="localaddr", n_quick=25, n_thorough=300, shards_thorough=2, oracle=oracle_localaddr, timeout=600),
            # one TCP connection as a byte stream: framing, write boundaries, small / incomplete frames, half-close
            dict(name="tcpstream", n_quick=400, n_thorough=8000, shards_thorough=4, oracle=oracle_tcpstream, timeout=900),
            # the cache-hit leg: a served entry is the answer to this very question
